@@ -242,7 +242,7 @@ def compare(cases, outs, res, reparse):
                 res.count('structure_preserved:inside-but-generator-spec-has-alternatives')
                 continue
             model = reader_tokens(proto.dec(ans))
-            real = G.coalesce(exp, cases[i]['strip'])
+            real = G.coalesce(exp, cases[i]['strip'], cases[i]['method'])
             res.streams[stream] = res.streams.get(stream, 0) + 1
             if model != real:
                 res.disagreements.append({'stream': stream, 'case': cases[i], 'model': repr(model)[:600], 'real': repr(real)[:600]})
